@@ -30,7 +30,9 @@ CAP = 60
 
 KINDS = ['incr', 'decr', 'setnp', 'restart', 'reload', 'reloadseq', 'reloadterm', 'stop', 'start', 'kill', 'signal',
          'extkill', 'selfexit', 'sigexit', 'check', 'advance', 'dieat', 'dieat', 'status', 'qpoint']
-HOOKS = ['before_start', 'before_spawn', 'after_spawn', 'after_start', 'before_stop', 'after_stop']
+HOOKS = ['before_start', 'before_spawn', 'after_spawn', 'after_start', 'before_stop', 'after_stop',
+         # a veto on signals withholds the stop signal, never the final SIGKILL: whoever is dropped from the books is dead
+         'before_signal', 'after_signal']
 
 
 def gen_spec(rnd):
